@@ -117,7 +117,7 @@ func runCheck(o *CheckOpts) int {
 		os.MkdirAll(tmp, 0o755)
 	}
 
-	timeout := 10
+	timeout := 15
 	all := false
 	if o.Tier == "thorough" {
 		timeout = 60
@@ -163,14 +163,15 @@ func runCheck(o *CheckOpts) int {
 		}
 		notes = append(notes, r.res.Notes...)
 	}
-	// solve
+	// solve (each obligation races three solvers: keep the number of concurrent obligations below cores/3)
 	ores := make([]*oblResult, len(obls))
+	ssem := make(chan struct{}, 6)
 	for i, ob := range obls {
 		wg.Add(1)
 		go func(i int, ob *Obligation) {
 			defer wg.Done()
-			sem <- struct{}{}
-			defer func() { <-sem }()
+			ssem <- struct{}{}
+			defer func() { <-ssem }()
 			qt := ob.W.queryText(ob, false)
 			var r SolveResult
 			if ob.Cover {
@@ -179,15 +180,44 @@ func runCheck(o *CheckOpts) int {
 				os.WriteFile(file, []byte(qt), 0o644)
 				r = runSolver(context.Background(), solvers[0], file, 3, o.Seed)
 			} else {
-				r = solve(qt, tmp, ob.Name, timeout, o.Seed, all)
-			}
-			if !ob.Cover && r.Status != "unsat" {
-				// retry with a longer timeout on all solvers before calling it undischarged; get a model if sat
-				qm := ob.W.queryText(ob, true)
-				r2 := solve(qm, tmp, ob.Name+".model", timeout*3, o.Seed+1, true)
-				if r2.Status == "unsat" || r2.Status == "sat" || r.Status == "error" {
-					r2.Tried = append(r.Tried, r2.Tried...)
-					r = r2
+				done := false
+				if ob.Focus != "" {
+					// focused variant first (smaller context); only unsat is conclusive
+					qf := ob.W.queryTextV(ob, false, true)
+					rf := solve(qf, tmp, ob.Name+".focus", 6, o.Seed, false)
+					if rf.Status == "unsat" {
+						rf.Tried = append([]string{"focused"}, rf.Tried...)
+						r = rf
+						done = true
+					}
+				}
+				if !done {
+					// escalating attempts with different seeds: short, medium, long
+					var tried []string
+					steps := []int{timeout / 2, timeout * 2, timeout * 5}
+					if o.Tier == "thorough" {
+						steps = []int{timeout, timeout * 3}
+					}
+					for k, tmo := range steps {
+						q := qt
+						if k == len(steps)-1 {
+							q = ob.W.queryText(ob, true)
+						}
+						r = solve(q, tmp, fmt.Sprintf("%s.a%d", ob.Name, k), tmo, o.Seed+k, all && k == 0)
+						tried = append(tried, r.Tried...)
+						if r.Status == "unsat" || r.Status == "sat" {
+							break
+						}
+					}
+					if r.Status == "sat" {
+						// obtain a model
+						rm := solve(ob.W.queryText(ob, true), tmp, ob.Name+".model", timeout*2, o.Seed, false)
+						if rm.Status == "sat" {
+							rm.Tried = tried
+							r = rm
+						}
+					}
+					r.Tried = tried
 				}
 			}
 			ores[i] = &oblResult{O: ob, R: r}
